@@ -147,59 +147,7 @@ func ruleDETERM(w *World, r *Report) {
 		}
 	}
 	r.floor("DETERM", "stores to Encoder.recoverySet", nStore, 1)
-	// D-d par2
-	if fn := w.Fn("par2.create"); fn != nil {
-		ne := callsIn(fn, "par2.newEncoder")
-		if len(ne) != 1 {
-			r.bad("DETERM", "D-d:par2.create", w.pos(fn.Pos()), "expected one call of newEncoder")
-		} else {
-			args := ne[0].Common().Args
-			// basePath = Dir(Abs(parPath))
-			okBase := false
-			if dc := callOf(args[2], "path/filepath.Dir"); dc != nil {
-				if ex, isEx := stripConv(dc.Call.Args[0]).(*ssa.Extract); isEx && ex.Index == 0 {
-					if ac := callOf(ex.Tuple, "path/filepath.Abs"); ac != nil && len(fn.Params) >= 2 && stripConv(ac.Call.Args[0]) == ssa.Value(fn.Params[1]) {
-						okBase = true
-					}
-				}
-			}
-			if okBase {
-				r.ok("DETERM", "D-d:par2.create:basePath", w.ipos(ne[0]), "basePath = filepath.Dir(filepath.Abs(parPath))")
-			} else {
-				r.bad("DETERM", "D-d:par2.create:basePath", w.ipos(ne[0]), "basePath is not filepath.Dir(filepath.Abs(parPath)): the stored names would depend on the current directory or the spelling of parPath")
-			}
-			// filePaths: every element store is Abs(path)#0
-			okPaths, nEl := true, 0
-			if mk, isMk := stripConv(args[3]).(*ssa.MakeSlice); isMk {
-				for _, ref := range referrersOf(mk) {
-					ia, isIa := ref.(*ssa.IndexAddr)
-					if !isIa {
-						continue
-					}
-					for _, r2 := range referrersOf(ia) {
-						st, isSt := r2.(*ssa.Store)
-						if !isSt {
-							continue
-						}
-						nEl++
-						ex, isEx := stripConv(st.Val).(*ssa.Extract)
-						if !isEx || ex.Index != 0 || callOf(ex.Tuple, "path/filepath.Abs") == nil {
-							okPaths = false
-						}
-					}
-				}
-			} else {
-				okPaths = false
-			}
-			if okPaths && nEl > 0 {
-				r.ok("DETERM", "D-d:par2.create:filePaths", w.ipos(ne[0]), "every input path is passed through filepath.Abs (which also cleans it) before newEncoder relativises it")
-			} else {
-				r.bad("DETERM", "D-d:par2.create:filePaths", w.ipos(ne[0]), "not every input path reaches newEncoder as the result of filepath.Abs: the stored name (and so the file id) would depend on how the path was spelled")
-			}
-		}
-	} else {
-		r.unk("DETERM", "D-d:par2.create", "-", "function not found")
-	}
+	determPathsPar2(w, r)
 	determGoroutineOption(w, r)
 	// the name hashed is the relative path
 	if fn := w.Fn("(*par2.Encoder).LoadFileData"); fn != nil {
@@ -336,7 +284,7 @@ func orderSensitive(w *World, fn *ssa.Function, rg *ssa.Range) string {
 						if !exit.Dominates(c2.Block()) {
 							continue
 						}
-						if sameSliceVar(c2.Common().Args[0], x) {
+						if sameSliceVar(c2.Common().Args[0], x) && comparatorReadsSlice(c2) {
 							sorted = true
 						}
 					}
@@ -395,5 +343,84 @@ func determGoroutineOption(w *World, r *Report) {
 				r.bad("DETERM", "D-e:par2.create:goroutine-option", w.ipos(ne[0]), "what Create writes depends on the goroutine count: "+bad)
 			}
 		}
+	}
+}
+
+// comparatorReadsSlice: for sort.Slice/SliceStable the less function must compare
+// elements (it indexes something); a comparator on the indices themselves sorts nothing.
+func comparatorReadsSlice(c ssa.CallInstruction) bool {
+	f := c.Common().StaticCallee()
+	if f == nil || !(f.String() == "sort.Slice" || f.String() == "sort.SliceStable") {
+		return true // sort.Ints, sort.Strings, sort.Sort: element order by definition
+	}
+	mc, ok := c.Common().Args[1].(*ssa.MakeClosure)
+	if !ok {
+		return false
+	}
+	lit := mc.Fn.(*ssa.Function)
+	for _, b := range lit.Blocks {
+		for _, in := range b.Instrs {
+			switch in.(type) {
+			case *ssa.IndexAddr, *ssa.Index, *ssa.Lookup:
+				return true
+			}
+		}
+	}
+	return false
+}
+
+func determPathsPar2(w *World, r *Report) {
+	// D-d par2
+	if fn := w.Fn("par2.create"); fn != nil {
+		ne := callsIn(fn, "par2.newEncoder")
+		if len(ne) != 1 {
+			r.bad("DETERM", "D-d:par2.create", w.pos(fn.Pos()), "expected one call of newEncoder")
+		} else {
+			args := ne[0].Common().Args
+			// basePath = Dir(Abs(parPath))
+			okBase := false
+			if dc := callOf(args[2], "path/filepath.Dir"); dc != nil {
+				if ex, isEx := stripConv(dc.Call.Args[0]).(*ssa.Extract); isEx && ex.Index == 0 {
+					if ac := callOf(ex.Tuple, "path/filepath.Abs"); ac != nil && len(fn.Params) >= 2 && stripConv(ac.Call.Args[0]) == ssa.Value(fn.Params[1]) {
+						okBase = true
+					}
+				}
+			}
+			if okBase {
+				r.ok("DETERM", "D-d:par2.create:basePath", w.ipos(ne[0]), "basePath = filepath.Dir(filepath.Abs(parPath))")
+			} else {
+				r.bad("DETERM", "D-d:par2.create:basePath", w.ipos(ne[0]), "basePath is not filepath.Dir(filepath.Abs(parPath)): the stored names would depend on the current directory or the spelling of parPath")
+			}
+			// filePaths: every element store is Abs(path)#0
+			okPaths, nEl := true, 0
+			if mk, isMk := stripConv(args[3]).(*ssa.MakeSlice); isMk {
+				for _, ref := range referrersOf(mk) {
+					ia, isIa := ref.(*ssa.IndexAddr)
+					if !isIa {
+						continue
+					}
+					for _, r2 := range referrersOf(ia) {
+						st, isSt := r2.(*ssa.Store)
+						if !isSt {
+							continue
+						}
+						nEl++
+						ex, isEx := stripConv(st.Val).(*ssa.Extract)
+						if !isEx || ex.Index != 0 || callOf(ex.Tuple, "path/filepath.Abs") == nil {
+							okPaths = false
+						}
+					}
+				}
+			} else {
+				okPaths = false
+			}
+			if okPaths && nEl > 0 {
+				r.ok("DETERM", "D-d:par2.create:filePaths", w.ipos(ne[0]), "every input path is passed through filepath.Abs (which also cleans it) before newEncoder relativises it")
+			} else {
+				r.bad("DETERM", "D-d:par2.create:filePaths", w.ipos(ne[0]), "not every input path reaches newEncoder as the result of filepath.Abs: the stored name (and so the file id) would depend on how the path was spelled")
+			}
+		}
+	} else {
+		r.unk("DETERM", "D-d:par2.create", "-", "function not found")
 	}
 }
